@@ -204,6 +204,25 @@ def run_check(P, pid, tier, seed, t0, a):
                                              "implementation is not satisfied on this input"})
         violations.append((path, False))
 
+    inv = None
+    if getattr(P, "inventory", None):
+        from . import inventory
+        inv = inventory.compare(P.inventory)
+        if inv["error"]:
+            notes.append("impl inventory could not be regenerated (rustdoc failed): " + inv["error"][-300:])
+            log(f"[{pid}] I: rustdoc inventory failed")
+        else:
+            log(f"[{pid}] I: {inv['total']} {P.inventory} impls in the source, {len(inv['added'])} not covered, "
+                f"{len(inv['removed'])} vanished")
+        if inv["error"] or inv["added"] or inv["removed"]:
+            if not (nres and nres["fails"]):
+                path = write_replay(pid, "correspondence", {
+                    "broken": [{"correspondence": "I:impl-inventory", "uncovered_impls": inv["added"][:50],
+                                "vanished_impls": inv["removed"][:50], "rustdoc_error": inv["error"]}],
+                    "note": "the set of trait impls in the source differs from the set the native harness exercises: "
+                            "an impl exists that no call site covers (or a covered impl vanished); the property is no longer "
+                            "shown for every spelling. No failing input was found by the call sites that do exist."})
+                violations.append((path, True))
     if nres and nres["mq_disagree"]:
         q, ans, m = nres["mq_disagree"][0]
         if not nres["fails"]:
@@ -259,7 +278,7 @@ def run_check(P, pid, tier, seed, t0, a):
     for (path, nofail) in violations:
         print(f"VIOLATION property={pid} replay={path}" + (" no-failing-input-found" if nofail else ""))
 
-    write_evidence(P, pid, tier, seed, t0, thms, dres, ores, tres, len(violations), notes, nres)
+    write_evidence(P, pid, tier, seed, t0, thms, dres, ores, tres, len(violations), notes, nres, inv)
     return 1 if violations else 0
 
 
@@ -322,7 +341,7 @@ def describe_corr(b):
     return {"correspondence": f"D:{c.op}", "input": c.line(), "impl": x[:400], "model": (y or "")[:400], "oracle_seed": sd}
 
 
-def write_evidence(P, pid, tier, seed, t0, thms, dres, ores, tres, nviol, notes, nres=None):
+def write_evidence(P, pid, tier, seed, t0, thms, dres, ores, tres, nviol, notes, nres=None, inv=None):
     os.makedirs(f"{core.VERIF}/evidence", exist_ok=True)
     n_thm = len(thms) if thms else 0
     n_trace = (tres["obligations"] if tres else 0)
@@ -377,6 +396,10 @@ def write_evidence(P, pid, tier, seed, t0, thms, dres, ores, tres, nviol, notes,
             cov["rule"] = (cov.get("rule", "") + " Model queries (native bookkeeping properties): one query = the per-component "
                            "results of one native case combined by the Lean model and compared with the implementation's "
                            "compound result; non-trivial = at least two distinct component tokens.").strip()
+    if inv:
+        cov["impl_inventory"] = {"regenerated_from_source": inv["error"] is None, "impls": inv["total"],
+                                 "uncovered": inv["added"][:20], "vanished": inv["removed"][:20],
+                                 "exhaustive": inv["error"] is None and not inv["added"] and not inv["removed"]}
     if tres:
         cov["trace"] = {k: tres[k] for k in ("obligations", "discharged", "kernels", "failed")}
     ev = {
